@@ -342,6 +342,7 @@ type ArbSpec struct {
 	Down       [][2]int    `json:"down,omitempty"` // links that are offline for the whole run
 	Rounds     int         `json:"rounds"`         // candidacies per candidate (retry after a failure)
 	MaxLoss    int         `json:"maxloss"`        // at most this many lost requests / lost replies per history
+	Restarts   int         `json:"restarts,omitempty"` // at most this many kill-and-restart events of non-candidate members (state reloaded from the saved metadata)
 }
 
 // ArbEvent decides the fate of one pending request, named "from>to:METHOD:n".
@@ -357,6 +358,7 @@ type ArbObs struct {
 	Winners []string // candidates whose commit round gathered a majority: "c<idx>-><host>"
 	Log     []string
 	Losses  int
+	Restarts int
 	Err     string
 }
 
